@@ -185,7 +185,8 @@ def check_sync(ctx, progs, origin):
     for blocks in progs:
         base = text_of(blocks)
         maxt = max(t for t, _ in blocks)
-        srcs += [base + MARK, base + " TrackSync " + "".join("TR(%d)%s" % (i, MARK) for i in range(maxt + 1))]
+        # (every spelling of the command: TrackSync, TRACK_SYNC)
+        srcs += [base + MARK, base + " " + ["TrackSync", "TRACK_SYNC", "TrackSync;", "TRACK_SYNC;"][len(base) % 4] + " " + "".join("TR(%d)%s" % (i, MARK) for i in range(maxt + 1))]
     got, bodies, decs = compile_all(ctx, srcs)
     for k, blocks in enumerate(progs):
         ref, syn = srcs[2 * k], srcs[2 * k + 1]
